@@ -244,7 +244,7 @@ func cmdCheck(args []string) int {
 		return 2
 	}
 	loadS := time.Since(t0).Seconds()
-	cfg := SolveConfig{QuickS: 4, SlowS: 20, Workers: 16, BudgetS: 150}
+	cfg := SolveConfig{QuickS: 4, SlowS: 20, Workers: 16, BudgetS: 420}
 	if *tier == "thorough" {
 		cfg = SolveConfig{QuickS: 10, SlowS: 60, Workers: 16, Thorough: true, BudgetS: 1200}
 	}
